@@ -158,6 +158,16 @@ pub fn reset() {
     KIND_LOG.with(|k| *k.borrow_mut() = None);
 }
 
+thread_local! {
+    /// long histories (macro events): after any fault, probe every index before traversing it
+    static CONTAIN: Cell<bool> = const { Cell::new(false) };
+}
+pub fn set_contain(on: bool) {
+    CONTAIN.with(|c| c.set(on));
+}
+pub fn contain() -> bool {
+    CONTAIN.with(|c| c.get())
+}
 pub fn set_index_probe(on: bool) {
     INDEX_PROBE.with(|c| c.set(on));
 }
